@@ -4,7 +4,8 @@ from harness.gen.sessions import gen_case, SidCounter
 
 THEOREM_NOTE = ("Props/C04.lean: every transition either leaves the screen stack unchanged or is one of the stack operations and changes it exactly as the ideal stack operation "
                 "does (replace keeps the modal flag, schedule inserts at the bottom); entries beneath the top keep their order; a screen is drawn only while it is the top of "
-                "the stack; an empty stack ends the application")
+                "the stack; an empty stack ends the application"
+                ' After F11 a close request is an ideal `close frm` that is refused unless it names the top screen (C04_refused_close_keeps_stack).')
 ASSUMPTIONS = ASSUME_SESSION
 RULE = ("app and tame sessions: random stack operations (schedule / push / push-modal / replace / close / redraw) issued from every callback kind over 1..4 screens with modal "
         "nesting, 0..30 typed lines; oracle: between two consecutive observations the stack changes by at most one ideal-stack operation, each API operation has its ideal "
